@@ -629,6 +629,36 @@ fn spawn(tier: Tier, limit_class: usize, shard: usize, nshards: usize, skip: &[u
     Child { proc, progress, out, limit_class, shard, skip: skip.to_vec(), last: 0, last_change: Instant::now() }
 }
 
+/// Runs one case alone. Some(stats) when it finishes cleanly within 10 s of CPU time (and 40 s of wall
+/// time): then the stall seen by the monitor was the machine's, not the library's.
+fn confirm_not_hung(tier: Tier, limit_class: usize, shard: usize, nshards: usize, case_id: u64, dir: &str) -> Option<Stats> {
+    fn children_cpu() -> f64 {
+        let mut ru: libc::rusage = unsafe { std::mem::zeroed() };
+        unsafe { libc::getrusage(libc::RUSAGE_CHILDREN, &mut ru) };
+        (ru.ru_utime.tv_sec + ru.ru_stime.tv_sec) as f64 + (ru.ru_utime.tv_usec + ru.ru_stime.tv_usec) as f64 / 1e6
+    }
+    let before = children_cpu();
+    let mut c = spawn(tier, limit_class, shard, nshards, &[], Some(case_id), dir);
+    let t0 = Instant::now();
+    let status = loop {
+        match c.proc.try_wait() {
+            Ok(Some(s)) => break Some(s),
+            Ok(None) if t0.elapsed() > Duration::from_secs(40) => {
+                let _ = c.proc.kill();
+                let _ = c.proc.wait();
+                break None;
+            }
+            Ok(None) => std::thread::sleep(Duration::from_millis(20)),
+            Err(_) => break None,
+        }
+    };
+    let cpu = children_cpu() - before;
+    if status.is_some_and(|s| s.success()) && c.progress.get() == u64::MAX && cpu <= 10.0 {
+        return read_stats(&c.out).map(|(s, _)| s);
+    }
+    None
+}
+
 pub fn run(tier: Tier, replay: Option<&J>) -> i32 {
     let start = Instant::now();
     let dir = format!("{}/harness/target/c05", ev::VERIF_DIR);
@@ -653,6 +683,7 @@ pub fn run(tier: Tier, replay: Option<&J>) -> i32 {
     let mut running: Vec<Child> = vec![];
     let mut queue = jobs.into_iter().rev().collect::<Vec<_>>();
     let mut incidents = 0u64;
+    let (mut real_hangs, mut load_stalls) = (0u32, 0u32);
     loop {
         while running.len() < max_parallel {
             match queue.pop() {
@@ -693,8 +724,26 @@ pub fn run(tier: Tier, replay: Option<&J>) -> i32 {
             if clean {
                 continue;
             }
+            // A stall is judged by wall time, which an oversubscribed machine stretches: before it counts,
+            // the one case is run again alone and judged by the CPU time it needs.
+            if hung && replay.is_none() && real_hangs < 3 && load_stalls < 200 {
+                if let Some(s2) = confirm_not_hung(tier, c.limit_class, c.shard, nshards, cur, &dir) {
+                    load_stalls += 1;
+                    st = st.merge(s2);
+                    st.outcome("slow-under-load(finished-alone-within-the-cpu-budget)");
+                    let mut skip = c.skip.clone();
+                    skip.push(cur);
+                    let mut nc = spawn(tier, c.limit_class, c.shard, nshards, &skip, None, &dir);
+                    nc.skip = skip;
+                    running.push(nc);
+                    continue;
+                }
+            }
             // the worker died or hung at case `cur`
             incidents += 1;
+            if hung {
+                real_hangs += 1;
+            }
             let what = if hung {
                 "no progress for 10 s on one input (hang or time not bounded by the input size)".to_string()
             } else if exited.and_then(|e| e.code()) == Some(77) {
@@ -714,7 +763,8 @@ pub fn run(tier: Tier, replay: Option<&J>) -> i32 {
                     st.violate(cur, if hung { "reading untrusted bytes does not finish in bounded time" } else { "reading untrusted bytes aborted the process or over-allocated" }, dj, json!({"case_id": cur, "limit": LIMITS[c.limit_class]}));
                 }
             }
-            if replay.is_none() && incidents < 40 && c.skip.len() < 12 {
+            // (a library that really hangs does so on many inputs: three confirmed ones end the search)
+            if replay.is_none() && incidents < 40 && c.skip.len() < 12 && real_hangs < 3 {
                 // resume after the culprit: rerun this shard skipping the known culprits
                 let mut skip = c.skip.clone();
                 skip.push(cur);
